@@ -18,6 +18,9 @@ pub enum Case {
     RepeatedOut { base: MpcCase, p_out: Vec<usize> },
     /// circuit description whose counters disagree with its instructions (passes `validate`)
     Malformed { base: MpcCase, what: String },
+    /// history: every party first runs the valid circuit, then the same circuit objects (same
+    /// instruction buffers) are made invalid in place and passed to mpc again
+    Reused { base: MpcCase, what: u8 },
 }
 
 fn base_circ(n: usize) -> CircSpec {
@@ -113,6 +116,47 @@ fn test_case_inner(c: &Case) -> Result<CaseInfo, Fail> {
             classes.push("repeated-p_out".into());
             desc = json!({"p_out": p_out, "rejected": all_rejected});
         }
+        Case::Reused { base, what } => {
+            use garble_lang::register_circuit::{Op, Reg, Xor};
+            use std::sync::Arc;
+            let n = base.n();
+            let mut circuits: Vec<Arc<garble_lang::register_circuit::Circuit>> = (0..n).map(|_| Arc::new(base.circ.to_circuit())).collect();
+            let run1 = crate::run::run_mpc_full(base, Adversary::default(), &cfg, None, Some(circuits.clone()));
+            crate::run::check_honest_result(base, &run1.res).map_err(|e| Fail::new("C18|reused|first-run", e))?;
+            drop(run1);
+            let name = ["operand register out of range", "output register out of range", "operand read before set"][*what as usize % 3];
+            for c in circuits.iter_mut() {
+                let Some(c) = Arc::get_mut(c) else { return Err(Fail::new("INFRA", "circuit still shared after the first run")) };
+                let big = Reg(c.max_reg_count as u32 + 5);
+                match *what % 3 {
+                    0 => {
+                        let k = c.insts.len() - 1;
+                        c.insts[k].op = Op::Xor(Xor(Reg(0), big));
+                    }
+                    1 => {
+                        let k = c.output_regs.len() - 1;
+                        c.output_regs[k] = big;
+                    }
+                    _ => {
+                        // first gate after the inputs reads the last register, which is set later
+                        let k = c.input_regs.iter().sum::<usize>();
+                        let last = Reg(c.max_reg_count as u32 - 1);
+                        c.insts[k].op = Op::Xor(Xor(last, last));
+                    }
+                }
+            }
+            let run2 = crate::run::run_mpc_full(base, Adversary::default(), &cfg, None, Some(circuits.clone()));
+            for p in 0..n {
+                let ops = ops_of(&run2.res.events, p);
+                match &run2.res.outcomes[p] {
+                    Outcome::Err(_) if ops == 0 => {}
+                    Outcome::Panic(m) => return Err(Fail::new("C18|panic|reused-circuit", format!("{name} (after a valid run with the same circuit object): party {p} panicked: {m}"))),
+                    o => return Err(Fail::new("C18|invalid-circuit-not-rejected|reused", format!("{name}, written into the circuit object that had just been run successfully: party {p}: expected up-front Err, got {} after {ops} channel operations", short(o)))),
+                }
+            }
+            classes.push("reused-circuit-object".into());
+            desc = json!({"reused_then_invalid": name});
+        }
         Case::Malformed { base, what } => {
             let run = run_mpc(base, Adversary::default(), &cfg);
             for p in 0..base.n() {
@@ -138,7 +182,17 @@ pub fn cases(tier: Tier, seed: u64) -> Vec<Case> {
             for party in 0..n {
                 let ok = PartyArgs { inputs: inputs[party].clone(), p_eval, p_own: party, p_out: (0..n).collect() };
                 let mut add = |what: String, args: PartyArgs| v.push(Case::InvalidArg { base: base.clone(), party, args, what });
-                for bad in [n, n + 1, 1000, usize::MAX] {
+                // boundary, far out of range, and values that alias a valid index when truncated to 8 / 16 / 32 bits
+                let mut bads = vec![n, n + 1, 1000, usize::MAX, u32::MAX as usize, 1 << 63];
+                for w in [8u32, 16, 32, 40] {
+                    for k in 0..n {
+                        bads.push((1usize << w) + k);
+                    }
+                }
+                if tier == Tier::Quick && !(party == 0 && p_eval == 0) {
+                    bads.truncate(6);
+                }
+                for bad in bads {
                     add(format!("p_own={bad}"), PartyArgs { p_own: bad, ..ok.clone() });
                     add(format!("p_eval={bad}"), PartyArgs { p_eval: bad, ..ok.clone() });
                     add(format!("p_out_element={bad}"), PartyArgs { p_out: vec![0, bad], ..ok.clone() });
@@ -181,6 +235,11 @@ pub fn cases(tier: Tier, seed: u64) -> Vec<Case> {
         bad("instruction output out of range", &|c| c.insts.push((c.max_reg_count as u32, GOp::Not(0))));
         bad("input register != position", &|c| c.insts[1].0 = 0);
         bad("all input counts zero", &|c| c.input_regs.iter_mut().for_each(|x| *x = 0));
+        for p_eval in 0..n {
+            for what in 0..3u8 {
+                v.push(Case::Reused { base: MpcCase { p_eval, ..base.clone() }, what });
+            }
+        }
         // repeated / unsorted output sets
         let outs: Vec<Vec<usize>> = if n == 2 { vec![vec![1, 1], vec![1, 0, 1], vec![1, 0], vec![0, 0, 0]] } else { vec![vec![1, 1], vec![2, 0, 2], vec![2, 1, 0], vec![0, 0, 1]] };
         for p_out in outs {
@@ -233,7 +292,7 @@ pub fn cases(tier: Tier, seed: u64) -> Vec<Case> {
 
 pub fn run(tier: Tier, seed: u64) -> i32 {
     let ctx = Ctx::new("C18", tier, seed, "exploration");
-    ctx.set_rule("systematic enumeration, n in {2,3}, every evaluator choice: one argument invalid at a time (p_own, p_eval, p_out element at boundary n, n+1 and far out of range at every position of sorted / unsorted / repeating lists, empty p_out, input length 0/1/3/7 instead of 2) at one party while the others are honest - oracle: that party returns Err with zero channel operation attempts (starts are recorded by the network) and nobody panics; circuits failing validation at all parties - Err with zero attempts; p_out with repeated / unsorted indices - either rejected that way or every party behaves as for the deduplicated set (clear-text result); circuit descriptions that pass validation but whose counters disagree with their instructions (and_ops, misplaced / surplus Input, Input.party / Input.input out of range, input_regs vs instructions, oversized max_reg_count; single and all paired mutations) - no party panics; every case is executed without a tracing subscriber and under one that enables every span and event; distinct by hash of the case");
+    ctx.set_rule("systematic enumeration, n in {2,3}, every evaluator choice: one argument invalid at a time (p_own, p_eval, p_out element at boundary n, n+1, far out of range and at 2^w + k for w in {8,16,32,40} and every valid k [aliases a valid index when truncated] at every position of sorted / unsorted / repeating lists, empty p_out, input length 0/1/3/7 instead of 2) at one party while the others are honest - oracle: that party returns Err with zero channel operation attempts (starts are recorded by the network) and nobody panics; circuits failing validation at all parties - Err with zero attempts, also when the invalid description is written into circuit objects that the same parties have just run successfully (history of two calls); p_out with repeated / unsorted indices - either rejected that way or every party behaves as for the deduplicated set (clear-text result); circuit descriptions that pass validation but whose counters disagree with their instructions (and_ops, misplaced / surplus Input, Input.party / Input.input out of range, input_regs vs instructions, oversized max_reg_count; single and all paired mutations) - no party panics; every case is executed without a tracing subscriber and under one that enables every span and event; distinct by hash of the case");
     let all = cases(tier, seed);
     ctx.extra("enumerated_cases", json!(all.len()));
     enumerate(&ctx, &all, test_case);
